@@ -38,7 +38,7 @@ theorem normalize_spec (m : UMesh) :
     ⟨sortFaces_sorted .tri m.tri, sortFaces_sorted .qua m.qua⟩, normalize_idem m⟩
 
 /-- the reader's block size (`MIN(1000000, ncell)` in the C) does not matter: any chunk size ≥ 1, and also the reader
-    variant with the index check of `Props/C20Ugrid.lean`, returns the same mesh -/
+    legacy variant without the index check of 6682479 (`ugridCfgLegacy`), returns the same mesh -/
 theorem roundtrip_ugrid_any_chunk (cfg : Cfg) (hc : cfg.allocCap = 2 ^ 30) (chunk : Nat) (h1 : 1 ≤ chunk) (fl : Flavor)
     (m : UMesh) (hw : WellFormed m = true) :
     decodeUgridChunked cfg chunk fl (encodeUgrid fl m) = .ok (normalize m) :=
@@ -103,7 +103,7 @@ theorem part_read_chunk_independent (fl : Flavor) (m : UMesh) (hw : WellFormed m
     partRead fl np (some chunk) (encodeUgrid fl m) =
       .ok { nnode := m.nodes.length, np := np, nodes := m.nodes,
             cells := Kind.all.map fun k => dedupCells k ((normalize m).get k) [] } :=
-  partRead_encodeRaw fl (normalize m) (wf_normalize hw) np hnp hnp2 chunk h1 h2
+  partRead_encodeRaw ugridCfg rfl fl (normalize m) (wf_normalize hw) np hnp hnp2 chunk h1 h2
 
 /-- cells of one kind have pairwise different node sets (every valid mesh; a two-sided baffle is the exception) -/
 def DistinctCells (m : UMesh) : Prop := ∀ k : Kind, ((m.get k).map (nodeSet k)).Nodup
@@ -155,25 +155,25 @@ theorem part_read_default_chunk (fl : Flavor) (m : UMesh) (hw : WellFormed m = t
       .ok { nnode := m.nodes.length, np := np, nodes := m.nodes,
             cells := Kind.all.map fun k => dedupCells k ((normalize m).get k) [] } := by
   have hwn := wf_normalize hw
-  have hsec : ∀ k : Kind, partSection fl (encodeUgrid fl m) np none (hdrOf (normalize m)) k =
+  have hsec : ∀ k : Kind, partSection ugridCfg fl (encodeUgrid fl m) np none (hdrOf (normalize m)) k =
       .ok (dedupCells k ((normalize m).get k) []) := by
     intro k
     have hlen : ((normalize m).get k).length = (m.get k).length := by
       cases k <;> simp [normalize, UMesh.get, sortFaces_length]
     obtain ⟨c1, c2⟩ := part_chunk_in_range ((normalize m).get k).length np hnp (by rw [hlen]; exact hsz k)
-    have := partSection_raw fl (normalize m) hwn np hnp _ c1 c2 k
+    have := partSection_raw ugridCfg rfl fl (normalize m) hwn np hnp _ c1 c2 k
     rw [← this]
     unfold partSection
     rw [hdrOf_getD]
     rfl
-  have hall : ∀ ks : List Kind, partSections fl (encodeUgrid fl m) np none (hdrOf (normalize m)) ks =
+  have hall : ∀ ks : List Kind, partSections ugridCfg fl (encodeUgrid fl m) np none (hdrOf (normalize m)) ks =
       .ok (ks.map fun k => dedupCells k ((normalize m).get k) []) := by
     intro ks
     induction ks with
     | nil => rfl
     | cons k ks ih => simp only [partSections, hsec k, ih, List.map_cons]
   have hp := part_read_chunk_independent fl m hw np hnp hnp2 1 (le_refl _) (by norm_num)
-  unfold partRead at hp ⊢
+  unfold partRead partReadWith at hp ⊢
   obtain ⟨hh, _⟩ := header_and_size fl m hw
   rw [hh] at hp ⊢
   rw [← hdrOf_normalize] at hp ⊢
@@ -188,7 +188,7 @@ theorem part_read_default_chunk (fl : Flavor) (m : UMesh) (hw : WellFormed m = t
     rw [hv] at hp
     simp only at hp ⊢
     rw [hall]
-    cases hs : partSections fl (encodeUgrid fl m) np (some 1) (hdrOf (normalize m)) Kind.all with
+    cases hs : partSections ugridCfg fl (encodeUgrid fl m) np (some 1) (hdrOf (normalize m)) Kind.all with
     | error e => rw [hs] at hp; simp at hp
     | ok cells =>
       rw [hs] at hp
@@ -256,7 +256,7 @@ theorem roundtrip_gather (fl : Flavor) (m : UMesh) (hw : WellFormed m = true) (n
       .ok { nnode := m.nodes.length, np := np, nodes := m.nodes,
             cells := Kind.all.map fun k => dedupCells k (m.get k) [] } := by
   rw [(gather_eq_export fl m).1]
-  exact ⟨decode_encodeRaw ugridCfg rfl _ (by decide) fl m hw, partRead_encodeRaw fl m hw np hnp hnp2 chunk h1 h2⟩
+  exact ⟨decode_encodeRaw ugridCfg rfl _ (by decide) fl m hw, partRead_encodeRaw ugridCfg rfl fl m hw np hnp hnp2 chunk h1 h2⟩
 
 /-! ### non-vacuity -/
 
